@@ -24,6 +24,7 @@ import (
 
 	"github.com/pkg/errors"
 	"go.uber.org/multierr"
+	"google.golang.org/grpc/codes"
 	"google.golang.org/grpc/status"
 
 	"github.com/oxia-db/oxia/common/concurrent"
@@ -772,11 +773,36 @@ func (lc *leaderController) RangeScan(ctx context.Context, request *proto.RangeS
 }
 
 func (lc *leaderController) WriteBlock(ctx context.Context, request *proto.WriteRequest) (*proto.WriteResponse, error) {
+	if err := validateWriteRequest(request); err != nil {
+		return nil, err
+	}
 	return lc.writeBlock(ctx, func(_ int64) *proto.WriteRequest { return request })
 }
 
 func (lc *leaderController) Write(ctx context.Context, request *proto.WriteRequest, cb concurrent.Callback[*proto.WriteResponse]) {
+	if err := validateWriteRequest(request); err != nil {
+		cb.OnCompleteError(err)
+		return
+	}
 	lc.write(ctx, func(_ int64) *proto.WriteRequest { return request }, cb)
+}
+
+// validateWriteRequest refuses the requests that could never be applied, before they are appended to
+// the log: once logged, an entry whose application fails stops every replica that applies it, and
+// fails again whenever the log is replayed.
+func validateWriteRequest(request *proto.WriteRequest) error {
+	for _, put := range request.Puts {
+		if len(put.SequenceKeyDelta) == 0 {
+			continue
+		}
+		if put.PartitionKey == nil {
+			return status.Error(codes.InvalidArgument, kv.ErrMissingPartitionKey.Error())
+		}
+		if put.SequenceKeyDelta[0] == 0 {
+			return status.Error(codes.InvalidArgument, kv.ErrSequenceDeltaIsZero.Error())
+		}
+	}
+	return nil
 }
 
 func (lc *leaderController) writeBlock(ctx context.Context, requestSupplier func(offset int64) *proto.WriteRequest) (*proto.WriteResponse, error) {
